@@ -19,6 +19,13 @@ Each statement was false of the model of the code before the fix named next to i
 10. `da32cfe` a lone `\uD8xx` escape no longer swallows the next `\u`
 11. `f5d720f` v-mode class strings are compared up to case under the `i` flag (not lexical:
     `close_class_set_operand` folds the strings of `Class` / `ClassStringDisjunction` operands)
+12. `8828538` negated v-mode class rejects strings by MayContainStrings, not per operand
+    (`ClassSet.mayContainStrings`; the `in_negated_class` parameter is gone).
+13. `5913a34` a negated v-mode class covers one-character strings of a property of strings
+    (`ClassSet.absorbSingleCharacters`); the defect it repairs was exposed by 12 and is kept as a
+    closed statement about the old `ClassSet::node` (`OldNode.negation_lost`).
+14. `5bd5930` duplicate group names in two groups of one alternative are an error (the pre-scan
+    records `(group, alternative)` per nesting level instead of `(depth, alternative)`).
 -/
 namespace Regress.ParseRegressions
 open Regress Regress.IR Regress.Parse Regress.C08
@@ -249,6 +256,111 @@ example : isBracket (parse (pat! "[\\q{ab}&&\\q{AB}]") vFlags) [] = true ∧
     isStringSet (parse (pat! "[\\q{ab}--\\q{AB}]") vFlags) [[0x61, 0x62]] false = true := by
   decide +kernel
 
+/-! ## 12. A negated class is rejected when its contents MAY CONTAIN STRINGS -/
+
+/-- The pattern parsed to the single INVERTED bracket with exactly the intervals `ivs`. -/
+def isNegBracket (r : Res Regex) (ivs : List (Nat × Nat)) : Bool :=
+  match r with
+  | .ok re =>
+    match re.node with
+    | .cat [.bracket bc, .goal] => bc.invert && bc.ivs == ivs
+    | _ => false
+  | .error _ => false
+
+/-- A subtraction may contain strings only if its first operand may, an intersection only if every
+operand may: `[^a--\q{bc}]` is `[^a]`, `[^\q{ab}&&a]` is the complement of the empty set. -/
+theorem negated_class_without_strings_accepted :
+    isNegBracket (parse (pat! "[^a--\\q{bc}]") vFlags) [(0x61, 0x61)] = true ∧
+    isNegBracket (parse (pat! "[^\\q{ab}&&a]") vFlags) [] = true ∧
+    isNegBracket (parse (pat! "[^a&&\\q{ab}]") vFlags) [] = true ∧
+    isNegBracket (parse (pat! "[^\\q{a|b}]") vFlags) [(0x61, 0x62)] = true ∧
+    isBracket (parse (pat! "[a[^b--\\q{ab}]]") vFlags) [(0, 0x61), (0x63, 0x10FFFF)] = true := by
+  decide +kernel
+
+theorem negated_class_with_strings_rejected :
+    rejected (parse (pat! "[^\\q{ab}]") vFlags) = true ∧ rejected (parse (pat! "[^[\\q{ab}]]") vFlags) = true ∧
+    rejected (parse (pat! "[^\\q{ab}--\\q{ab}]") vFlags) = true ∧ rejected (parse (pat! "[^\\q{}]") vFlags) = true ∧
+    rejected (parse (pat! "[a[^\\q{ab}]]") vFlags) = true ∧ rejected (parse (pat! "[^a\\q{ab}]") vFlags) = true ∧
+    rejected (parse (pat! "[^\\q{ab}&&\\q{ab}]") vFlags) = true := by
+  decide +kernel
+
+/-- The flag itself: union ORs, intersection ANDs, subtraction keeps the first operand's. -/
+theorem mayContainStrings_rules (a b : ClassSet) (s : List (List Nat)) (c : Nat) (e : CPS.IvList) :
+    (a.unionOperand (.cls b)).mayContainStrings = (a.mayContainStrings || b.mayContainStrings) ∧
+    (a.unionOperand (.strs s)).mayContainStrings = true ∧
+    (a.unionOperand (.char c)).mayContainStrings = a.mayContainStrings ∧
+    (a.intersectOperand (.cls b)).mayContainStrings = (a.mayContainStrings && b.mayContainStrings) ∧
+    (a.intersectOperand (.char c)).mayContainStrings = false ∧
+    (a.intersectOperand (.esc e)).mayContainStrings = false ∧
+    (a.intersectOperand (.strs s)).mayContainStrings = a.mayContainStrings ∧
+    (a.subtractOperand (.cls b)).mayContainStrings = a.mayContainStrings ∧
+    (a.subtractOperand (.strs s)).mayContainStrings = a.mayContainStrings :=
+  ⟨rfl, rfl, rfl, rfl, rfl, rfl, rfl, rfl, rfl⟩
+
+/-! ## 13. One-character strings are absorbed into the code points before complementing -/
+
+/-- `[^\p{RGI_Emoji}&&⌚]` is the complement of `{U+231A}` (U+231A is one of the one-character
+strings of `Basic_Emoji`, which a property of strings contributes as a STRING); nested, the
+complement is taken of the absorbed set too; the non-negated class is the bracket `{U+231A}`. -/
+theorem negated_single_codepoint_string :
+    isNegBracket (parse (pat! "[^\\p{RGI_Emoji}&&⌚]") vFlags) [(0x231A, 0x231A)] = true ∧
+    isBracket (parse (pat! "[a[^\\p{RGI_Emoji}&&⌚]]") vFlags) [(0, 0x2319), (0x231B, 0x10FFFF)] = true ∧
+    isBracket (parse (pat! "[\\p{RGI_Emoji}&&⌚]") vFlags) [(0x231A, 0x231A)] = true := by
+  decide +kernel
+
+theorem absorbSingleCharacters_example :
+    (ClassSet.absorbSingleCharacters { cps := [], alts := [[0x62], [0x61, 0x62], [], [0x61]] }).cps
+      = [{ first := 0x61, last := 0x62 }] ∧
+    (ClassSet.absorbSingleCharacters { cps := [], alts := [[0x62], [0x61, 0x62], [], [0x61]] }).alts
+      = [[0x61, 0x62], []] := by
+  decide +kernel
+
+/-- The old `ClassSet::node` (between `8828538` and `5913a34`), kept to record the defect: the
+intersection `\p{RGI_Emoji}&&⌚` has no code points and the one string `[U+231A]`, its
+MayContainStrings is `false`, so `[^…]` was accepted; the old `node(_, negate_set = true)` inverted
+only the (empty) code point part and, that part being empty, returned the strings alone: the
+negation was lost (the real engine matched "⌚" with `/^[^\p{RGI_Emoji}&&⌚]$/v`). -/
+def OldNode.node (self : ClassSet) (icase negateSet : Bool) : Node :=
+  let hasEmpty := self.alts.any (fun s => s.isEmpty)
+  let self' : ClassSet := { self with alts := self.alts.filter (fun s => !s.isEmpty) }
+  let node := self'.nonemptyNode icase negateSet
+  if hasEmpty then makeAlt [node, .empty] else node
+
+theorem OldNode.negation_lost :
+    (match OldNode.node { cps := [], alts := [[0x231A]] } false true with
+      | .stringSet [[0x231A]] false => true | _ => false) = true ∧
+    (match ClassSet.node { cps := [], alts := [[0x231A]] } false true with
+      | .bracket ⟨true, [(0x231A, 0x231A)]⟩ => true | _ => false) = true := by
+  decide +kernel
+
+/-! ## 14. Duplicate names: which GROUP each nesting level belongs to matters -/
+
+/-- Two groups of the same alternative can both take part in a match, so a name used in both is a
+duplicate (all 64 flag combinations): `((?<a>x)|b)(c|(?<a>y))` was accepted because both
+occurrences sit at depth 1 in alternatives 0 and 1 "of depth 1". -/
+theorem duplicate_name_in_two_groups_rejected : ∀ fl : Flags,
+    rejected (parse (pat! "((?<a>x)|b)(c|(?<a>y))") fl) = true ∧
+    rejected (parse (pat! "(?<a>x)|(?:(?<a>y)(?<a>z))") fl) = true ∧
+    rejected (parse (pat! "(?:a|(?<a>x))(?:b|(?<a>y))") fl) = true := by
+  all_flags
+
+/-- Contrast: different alternatives of the same group (at any level) do not conflict. -/
+theorem duplicate_name_in_alternatives_accepted : ∀ fl : Flags,
+    accepted (parse (pat! "(?:(?<a>x)|b)|(?:(?<a>y)|c)") fl) = true ∧
+    accepted (parse (pat! "((?<a>x))|((?<a>y))") fl) = true ∧
+    accepted (parse (pat! "((?<a>x)|(?:q(?<a>y)))") fl) = true := by
+  all_flags
+
+/-- `conflicts_with` on the paths of the first example (`[(0,0),(1,0)]` vs `[(0,0),(2,1)]`: two
+groups) and of `(?<a>x)|(?<a>y)` (`[(0,0)]` vs `[(0,1)]`: one group); a prefix conflicts. -/
+theorem conflictsWith_examples :
+    conflictsWith [(0, 0), (1, 0)] [(0, 0), (2, 1)] = true ∧
+    conflictsWith [(0, 0)] [(0, 1)] = false ∧
+    conflictsWith [(0, 0), (1, 0)] [(0, 0), (1, 1), (2, 0)] = false ∧
+    conflictsWith [(0, 0)] [(0, 0), (1, 0)] = true ∧
+    conflictsWith [(0, 0), (1, 1)] [(0, 0), (1, 1)] = true := by
+  decide
+
 end Regress.ParseRegressions
 
 #print axioms Regress.ParseRegressions.quantified_word_boundary_rejected
@@ -268,3 +380,12 @@ end Regress.ParseRegressions
 #print axioms Regress.ParseRegressions.tryEscapeUnicodeSequence_lone_surrogate
 #print axioms Regress.ParseRegressions.class_strings_folded
 #print axioms Regress.ParseRegressions.foldAlternativeStrings_dedup
+#print axioms Regress.ParseRegressions.negated_class_without_strings_accepted
+#print axioms Regress.ParseRegressions.negated_class_with_strings_rejected
+#print axioms Regress.ParseRegressions.mayContainStrings_rules
+#print axioms Regress.ParseRegressions.negated_single_codepoint_string
+#print axioms Regress.ParseRegressions.absorbSingleCharacters_example
+#print axioms Regress.ParseRegressions.OldNode.negation_lost
+#print axioms Regress.ParseRegressions.duplicate_name_in_two_groups_rejected
+#print axioms Regress.ParseRegressions.duplicate_name_in_alternatives_accepted
+#print axioms Regress.ParseRegressions.conflictsWith_examples
